@@ -12,6 +12,7 @@
      calls   [[cid, kind, a, b, c, [[slot, action, arg] ...], [models], [model_context ids]] ...]
              kind 0 event a=model b=event | 1 set_state a=model b=state | 2 add_transition a=event b=src c=dst
                   3 add_states a=state | 4 remove_model [models] | 5 add_model [models] initial=b model_context
+                  6 a=model: machine.callback(f, event_data) if b=0, machine.callbacks([f]*b, event_data) if b>=1
              slot 0 prepare_event 1 before 2 after 3 finalize; action 1 raise | 2 nested call arg=cid
      progs   [[cid ...] ...]  (thread i+1 issues the i-th list)
      sched   [tid ...]        (macro steps)
@@ -51,7 +52,8 @@ Definition mem (x : nat) (l : list nat) : bool := existsb (Nat.eqb x) l.
 Record evp : Type := mkEvp { e_cid : nat; e_m : nat; e_dst : nat; e_res : cres }.
 
 Inductive kk : Type :=
-| KMeth (cid : nat) | KInit (cid : nat) | KCb (sl : nat) (e : evp) | KPost (sl : nat) (e : evp).
+| KMeth (cid : nat) | KInit (cid : nat) | KCb (sl : nat) (e : evp) | KPost (sl : nat) (e : evp)
+| KFcb (cid : nat) (m : nat) (rem : nat).   (* machine.callback / machine.callbacks called directly: rem user callables left *)
 
 Definition citem : Type := (nat * (nat * nat))%type.    (* slot, model, state seen *)
 
@@ -127,7 +129,11 @@ Section Concrete.
 
   Definition c_start (c : call) : kk :=
     match find_spec tab (c_id c) with
-    | Some s => match s_kind s with 0 => KInit (c_id c) | _ => KMeth (c_id c) end
+    | Some s => match s_kind s with
+                | 0 => KInit (c_id c)
+                | 6 => KFcb (c_id c) (s_a s) (s_b s)
+                | _ => KMeth (c_id c)
+                end
     | None => KMeth (c_id c)
     end.
 
@@ -195,11 +201,19 @@ Section Concrete.
             end
         end
     | KPost sl e => let (ms', st) := c_post sl e ms in (ms', [], st)
+    | KFcb cid m rem =>
+        (* the public methods callback(func, event_data) / callbacks(funcs, event_data) run user callables; each is a
+           segment (slot 4) *)
+        let it := (4, (m, state_of ms m)) in
+        match rem with
+        | 0 | 1 => (ms, [it], SDone (RVal 2))
+        | S r => (ms, [it], SMore (KFcb cid m r))
+        end
     end.
 
   Definition c_ret (k : kk) (r : cres) : kk := k.
 
-  Definition c_vis (k : kk) : bool := match k with KCb _ _ => true | _ => false end.
+  Definition c_vis (k : kk) : bool := match k with KCb _ _ => true | KFcb _ _ _ => true | _ => false end.
 End Concrete.
 
 (* ------------------------------------------------------------------ macro steps *)
